@@ -193,10 +193,13 @@ def locPre (v : Val) : Val :=
         .nat (locEncodeSize v.snd.snd.fst.toNat), .nat (locCoordWire v.snd.snd.snd.fst),
         .nat (locCoordWire v.snd.snd.snd.snd.fst), v.snd.snd.snd.snd.snd]
 
-/-- what the LOC constructor checks of a coordinate tuple (`_check_coordinate_list`) -/
+/-- what the LOC constructor checks of a coordinate tuple (`_check_coordinate_list`, since `99177f3` including
+"no minutes/seconds/milliseconds at the maximal degrees") -/
 def locCoordCtorOk (c : Val) (maxDeg : Nat) : Bool :=
   decide (c.fst.toNat ≤ maxDeg) && decide (c.snd.fst.toNat ≤ 59) && decide (c.snd.snd.fst.toNat ≤ 59) &&
-    decide (c.snd.snd.snd.fst.toNat ≤ 999) && decide (c.snd.snd.snd.snd.toNat ≤ 1)
+    decide (c.snd.snd.snd.fst.toNat ≤ 999) && decide (c.snd.snd.snd.snd.toNat ≤ 1) &&
+    (decide (c.fst.toNat ≠ maxDeg) ||
+      (decide (c.snd.fst.toNat = 0) && decide (c.snd.snd.fst.toNat = 0) && decide (c.snd.snd.snd.fst.toNat = 0)))
 
 /-! ## APL -/
 
